@@ -127,7 +127,7 @@ def r1h(ctx):
     for _, t in ts.find_calls(r"HashMap::<K, V, S, A>::get$"):
         kv, c = const_str_of(b, t["args"][1])
         tkeys.add(kv)
-    if tkeys != {"x-amz-date", "date"} or not ts.has_field("headers"):
+    if tkeys != {"x-amz-date", "date"} or not ts.reads_field("headers"):
         yield VIOL("C02-R1h", "from_header/timestamp/source", "timestamp is read from %s" % sorted(tkeys, key=str), where=loc(ag[2]["span"]))
     else:
         yield PASS("C02-R1h", "from_header/timestamp/source", "<= self.headers[x-amz-date | date][0] via latin1_to_string", [loc(ag[2]["span"])])
